@@ -1,5 +1,6 @@
 import Logrange.Proofs.TIndexLts
 import Logrange.Proofs.TIndexProg
+import Logrange.Proofs.TIndexDnr
 import Logrange.Generated.C14
 /-!
 # C14 — A partition is never deleted, re-created or left locked while someone uses it
@@ -347,7 +348,8 @@ theorem getjournals_limit_path_balanced :
 `Model/TIndexProg.lean` mirrors every caller of the tag index in /repo as a control-state machine over the labels
 above (`Write`, `GetParitionInfo`, `GetJournal`+`Release`, `tmirebuilder.serve`, `cleanupTsIndex`, `truncateGlobally`,
 `ppipe.cleanPartitions`, `Partitions`, `GetJournals` incl. limit and repaired error path + `cursor.close`, `Truncate` with
-`deleteJournal`). `Reach` = any number of such callers, started at any time, interleaved in any way (no `Shutdown`). -/
+`deleteJournal`). `Reach` = any number of such callers, started at any time, interleaved in any way, with `Shutdown()` of
+the tag index at any point of the run (`Reach.shutdown`). -/
 open Logrange.TIndexProg in
 /-- **The callers follow the protocol**: every critical section a caller is about to perform is enabled (it releases
 only what it holds, locks only what it holds, unlocks/deletes only what it locked, …) — so every theorem above about
@@ -355,15 +357,17 @@ protocol-following actors applies to the real callers. -/
 theorem callers_follow_protocol (x : Sys) (h : Reach x) (a : Nat) (l : Lbl) (c' : Ctl)
     (ho : (l, c') ∈ pnext a x.st (x.ctl a)) : ∃ st', step x.st l = some st' := by
   have hi := sysInv_reach h
-  obtain ⟨st', hs, _⟩ := own_step hi.st hi.nd (hi.loc a) l c' ho
+  obtain ⟨o, hl⟩ := hi.locE a
+  obtain ⟨st', _, hs, _⟩ := own_step hi.st hl l c' ho
   exact ⟨st', hs⟩
 
 open Logrange.TIndexProg in
 /-- **Every caller program is balanced**: whatever the interleaving with any number of other callers, a caller that
-has returned holds nothing — no client acquisition, no visit-owned acquisition, no exclusive lock, no visit. -/
-theorem program_balanced (x : Sys) (h : Reach x) (a : Nat) (hf : x.ctl a = .fin) :
+has returned holds nothing — no client acquisition, no visit-owned acquisition, no exclusive lock, no visit (as long as
+the tag index has not been shut down; for runs with `Shutdown()` see `program_balanced_shutdown`). -/
+theorem program_balanced (x : Sys) (h : Reach x) (hd : x.st.done = false) (a : Nat) (hf : x.ctl a = .fin) :
     (∀ t, t ∈ x.st.c.holds → t.actor ≠ a) ∧ x.st.vis a = none ∧ ∀ s, x.st.c.locker s ≠ some a := by
-  have hl := (sysInv_reach h).loc a
+  have hl := (sysInv_reach h).loc0 hd a
   rw [hf] at hl
   have hv : x.st.vis a = none := hl.vis
   refine ⟨?_, hv, fun s hlk => by have := hl.lck s hlk; simp [lockedAt] at this⟩
@@ -376,6 +380,50 @@ theorem program_balanced (x : Sys) (h : Reach x) (a : Nat) (hf : x.ctl a = .fin)
   | true => have := hl.aut ts; rw [hv] at this; simp [owedCount] at this; omega
 
 open Logrange.TIndexProg in
+/-- **Matched release in every run, `Shutdown()` included**: whenever `Shutdown()` happens (before, between or inside
+the callers' critical sections), a caller that has returned holds no client acquisition (everything it obtained through
+`GetOrCreateJournal`, `GetJournalTags` or a `VF_DO_NOT_RELEASE` visit was given back exactly once), no exclusive lock and no
+running visit. What it may legitimately still owe are visit-owned acquisitions (`auto = true`) — see `shutdown_orphans`. -/
+theorem program_balanced_shutdown (x : Sys) (h : Reach x) (a : Nat) (hf : x.ctl a = .fin) :
+    (∀ s, x.st.c.holds.count ⟨a, s, false⟩ = 0) ∧ x.st.vis a = none ∧ ∀ s, x.st.c.locker s ≠ some a := by
+  obtain ⟨o, hl⟩ := (sysInv_reach h).locE a
+  rw [hf] at hl
+  exact ⟨fun s => by rw [hl.cli s]; simp [heldOf], hl.vis, fun s hlk => by have := hl.lck s hlk; simp [lockedAt] at this⟩
+
+open Logrange.TIndexProg in
+/-- **What a `Visit` interrupted by `Shutdown()` ends owing**: in every reachable state there is a book `orph` of orphaned
+visit-owned acquisitions — empty as long as the index is not shut down — such that every actor's visit-owned tokens are
+exactly what its running visit still owes plus its orphans. Orphans arise in one place only: the per-item section of a
+waiting `Visit` that sees `ims.done` and returns `WrongState` without the final locked section (`own_visit`); the process
+is then about to exit. Nothing else is ever left behind. -/
+theorem shutdown_orphans (x : Sys) (h : Reach x) :
+    ∃ orph : Nat → Nat → Nat, (x.st.done = false → ∀ a s, orph a s = 0) ∧
+      ∀ a s, x.st.c.holds.count ⟨a, s, true⟩ = owedCount (x.st.vis a) s + orph a s := by
+  obtain ⟨orph, h0, hl⟩ := (sysInv_reach h).loc
+  exact ⟨orph, h0, fun a s => (hl a).aut s⟩
+
+/-- **`GetJournals` interrupted by `Shutdown()` owes nothing**: along every trace of the LTS, a waiting visit with
+`VF_DO_NOT_RELEASE` owes exactly the entry whose callback is running, and nothing between two callbacks — where the per-item
+section stands when it sees `ims.done`. So skipping the final locked section loses nothing for `GetJournals` (what it
+acquired is in `res` and is released by its error path: `program_balanced_shutdown`); orphans (`shutdown_orphans`) can only
+come from the auto-release waiting visit, `Partitions`. -/
+theorem interrupted_getjournals_owes_nothing (tr : List Lbl) (a : Nat) (v : Visit) (hv : (reach tr).vis a = some v)
+    (hw : v.skipping = false) (hn : v.noRelease = true) :
+    (v.cur = none → v.owed = []) ∧ (∀ s, v.cur = some s → v.owed = [s]) :=
+  dnrInv_run tr init dnrInv_init a v hv hw hn
+
+open Logrange.TIndexProg in
+/-- … the same in the system of caller programs (any callers, any interleaving, `Shutdown()` at any point) -/
+theorem callers_getjournals_owes_nothing (x : Sys) (h : Reach x) (a : Nat) (v : Visit) (hv : x.st.vis a = some v)
+    (hw : v.skipping = false) (hn : v.noRelease = true) (hc : v.cur = none) : v.owed = [] := by
+  have hi : DnrInv x.st := dnrInv_reach h
+  exact (hi a v hv hw hn).1 hc
+
+open Logrange.TIndexProg in
+/-- `Shutdown()` is reachable at any point and is final: the flag stays set along every further run -/
+theorem shutdown_reachable (x : Sys) (h : Reach x) : Reach ⟨{ x.st with done := true }, x.ctl⟩ := Reach.shutdown h
+
+open Logrange.TIndexProg in
 /-- `cursor.newCursor` with all its error paths (a filter that cannot be built, a position that cannot be applied, too
 many partitions, a failing `GetOrCreate`) is one of the caller programs, so `callers_follow_protocol`,
 `program_balanced` and `no_deadlock` cover it: each error path gives back exactly what was acquired, once. -/
@@ -386,19 +434,19 @@ open Logrange.TIndexProg in
 /-- … and once only: a control state that is about to `Release` the same partition twice (an error path calling both
 `cur.close()` and `releaseJournals`) is consistent with the caller's tokens only if it acquired the partition twice —
 after one acquisition the second `Release` is not enabled (it would take away somebody else's hold or panic). -/
-theorem double_release_needs_two_holds (a s : Nat) (st : St) (k : Ctl) (h : Local a (.rel s [s] k) st) :
+theorem double_release_needs_two_holds (o : Nat → Nat) (a s : Nat) (st : St) (k : Ctl) (h : Local o a (.rel s [s] k) st) :
     2 ≤ st.c.holds.count ⟨a, s, false⟩ := by
   rw [h.cli s]; simp [heldOf]
 
 open Logrange.TIndexProg in
 /-- **Counts return to zero when activity stops** — for the real callers, by theorem: when every caller has returned,
 no acquisition is outstanding, every live partition has `readers = 0` and none is exclusively locked. -/
-theorem callers_quiescent_zero (x : Sys) (h : Reach x) (hall : ∀ a, x.ctl a = .fin) :
+theorem callers_quiescent_zero (x : Sys) (h : Reach x) (hd : x.st.done = false) (hall : ∀ a, x.ctl a = .fin) :
     x.st.c.holds = [] ∧ ∀ s p, x.st.c.parts s = some p → p.readers = 0 ∧ p.exclusive = false := by
   have hnil : x.st.c.holds = [] := by
     apply List.eq_nil_iff_forall_not_mem.mpr
     intro t ht
-    exact (program_balanced x h t.actor (hall t.actor)).1 t ht rfl
+    exact (program_balanced x h hd t.actor (hall t.actor)).1 t ht rfl
   refine ⟨hnil, ?_⟩
   intro s p hp
   have hi := (sysInv_reach h).st.core
@@ -412,6 +460,27 @@ theorem callers_quiescent_zero (x : Sys) (h : Reach x) (hall : ∀ a, x.ctl a = 
     rw [hnil] at hm; cases hm
 
 open Logrange.TIndexProg in
+/-- … and in runs with `Shutdown()`: when every caller has returned, the only acquisitions left are visit-owned orphans
+of interrupted waiting visits, and no partition is exclusively locked. -/
+theorem callers_quiescent_shutdown (x : Sys) (h : Reach x) (hall : ∀ a, x.ctl a = .fin) :
+    (∀ t, t ∈ x.st.c.holds → t.auto = true) ∧ ∀ s p, x.st.c.parts s = some p → p.exclusive = false := by
+  refine ⟨?_, ?_⟩
+  · intro t ht
+    obtain ⟨ta, ts, tau⟩ := t
+    cases tau with
+    | true => rfl
+    | false =>
+      have := (program_balanced_shutdown x h ta (hall ta)).1 ts
+      have h1 := List.one_le_count_iff.mpr ht
+      omega
+  · intro s p hp
+    cases hx : p.exclusive with
+    | false => rfl
+    | true =>
+      obtain ⟨_, b, _, hlb, _⟩ := (sysInv_reach h).st.core.excl s p hp hx
+      exact absurd hlb ((program_balanced_shutdown x h b (hall b)).2.2 s)
+
+open Logrange.TIndexProg in
 /-- **The exclusive holder is inside `deleteJournal`'s straight-line section and its next step frees the partition**:
 whenever a partition is exclusively locked, its locker `b` stands right before `Delete` or before `UnlockExclusively`;
 that step is enabled, and after it the partition is gone or no longer exclusively locked (bounded progress: a waiter
@@ -423,7 +492,7 @@ theorem exclusive_holder_frees (x : Sys) (h : Reach x) (s : Nat) (p : Part) (hp 
         (st'.c.parts s = none ∨ ∃ p', st'.c.parts s = some p' ∧ p'.exclusive = false) := by
   have hi := sysInv_reach h
   obtain ⟨hr1, b, _, hlb, _⟩ := hi.st.core.excl s p hp hx
-  have hloc := hi.loc b
+  obtain ⟨ob, hloc⟩ := hi.locE b
   have hat := hloc.lck s hlb
   cases hc : x.ctl b with
   | dj ph s' k =>
@@ -448,7 +517,8 @@ exclusively locked partition (`moves_or_excl`), and then the locker itself can m
 theorem no_deadlock (x : Sys) (h : Reach x) (a : Nat) (hc : x.ctl a ≠ .fin) :
     ∃ b l c', (l, c') ∈ pnext b x.st (x.ctl b) ∧ Moves x.st (x.ctl b) l c' := by
   have hi := sysInv_reach h
-  rcases moves_or_excl hi.st hi.nd (hi.loc a) hc with ⟨l, c', ho, hm⟩ | ⟨s, p, hp, hx⟩
+  obtain ⟨o, hl⟩ := hi.locE a
+  rcases moves_or_excl hi.st hl hc with ⟨l, c', ho, hm⟩ | ⟨s, p, hp, hx⟩
   · exact ⟨a, l, c', ho, hm⟩
   · obtain ⟨b, k, _, _, l, c', st', ho, hs, hfree⟩ := exclusive_holder_frees x h s p hp hx
     refine ⟨b, l, c', ho, st', hs, Or.inr ?_⟩
@@ -464,9 +534,51 @@ theorem waits_only_behind_exclusive (x : Sys) (h : Reach x) (a : Nat) (hc : x.ct
     (hno : ∀ s p, x.st.c.parts s = some p → p.exclusive = false) :
     ∃ l c', (l, c') ∈ pnext a x.st (x.ctl a) ∧ Moves x.st (x.ctl a) l c' := by
   have hi := sysInv_reach h
-  rcases moves_or_excl hi.st hi.nd (hi.loc a) hc with hm | ⟨s, p, hp, hx⟩
+  obtain ⟨o, hl⟩ := hi.locE a
+  rcases moves_or_excl hi.st hl hc with hm | ⟨s, p, hp, hx⟩
   · exact hm
   · rw [hno s p hp] at hx; cases hx
+
+open Logrange.TIndexProg in
+/-- **Nobody waits after `Shutdown()`**: every caller that has not returned has an option that changes its control
+state (acquisitions fail at once, a waiting visit returns `WrongState`, running visitors and `deleteJournal` finish). -/
+theorem no_wait_after_shutdown (x : Sys) (h : Reach x) (hd : x.st.done = true) (a : Nat) (hc : x.ctl a ≠ .fin) :
+    ∃ l c', (l, c') ∈ pnext a x.st (x.ctl a) ∧ Moves x.st (x.ctl a) l c' := by
+  have hi := sysInv_reach h
+  obtain ⟨o, hl⟩ := hi.locE a
+  exact moves_down hi.st hd hl hc
+
+open Logrange.TIndexProg in
+/-- a caller waits for ONE named partition: it can move unless the partition it needs next (`needs`) is exclusively
+locked — and as soon as that partition is gone or unlocked, it can move -/
+theorem waiter_proceeds_when_free (x : Sys) (h : Reach x) (a : Nat) (hc : x.ctl a ≠ .fin) (s : Nat)
+    (hn : needs a x.st (x.ctl a) s)
+    (hfree : x.st.c.parts s = none ∨ ∃ p, x.st.c.parts s = some p ∧ p.exclusive = false) :
+    ∃ l c', (l, c') ∈ pnext a x.st (x.ctl a) ∧ Moves x.st (x.ctl a) l c' := by
+  have hi := sysInv_reach h
+  obtain ⟨o, hl⟩ := hi.locE a
+  exact waiter_moves_when_free hi.st hl hc s hn hfree
+
+open Logrange.TIndexProg in
+/-- **Bounded waiting (liveness in bounded form, k = 1)**. Fairness is taken in its weakest useful form: the holder of the
+exclusive lock is scheduled at least once in the run segment (`b ∈ as`; its steps are never waits — `exclusive_holder_frees`).
+Then, whatever the other callers do meanwhile (any number of them, any interleaving, `Shutdown()` aside): the lock on `s`
+stays with `b` and `b` stays where it is in `deleteJournal` until `b`'s FIRST step; that step frees `s` (deleted or
+unlocked); and at that very moment every caller that was waiting for `s` can proceed. A waiter therefore waits for exactly
+one step of the holder. (Not claimed: that the waiter itself is scheduled before a NEW `deleteJournal` locks the
+partition again — an unfair scheduler can starve it; that needs fairness towards the waiter.) -/
+theorem bounded_wait (x z : Sys) (h : Reach x) (as : List Nat) (b s : Nat) (hl : x.st.c.locker s = some b)
+    (r : Run x as z) (hb : b ∈ as) :
+    ∃ as1 as2 y y', as = as1 ++ b :: as2 ∧ b ∉ as1 ∧ Run x as1 y ∧ y.st.c.locker s = some b ∧ y.ctl b = x.ctl b ∧
+      SysStepBy b y y' ∧ Run y' as2 z ∧
+      (y'.st.c.parts s = none ∨ ∃ p', y'.st.c.parts s = some p' ∧ p'.exclusive = false) ∧
+      ∀ a, y'.ctl a ≠ .fin → needs a y'.st (y'.ctl a) s →
+        ∃ l c', (l, c') ∈ pnext a y'.st (y'.ctl a) ∧ Moves y'.st (y'.ctl a) l c' := by
+  obtain ⟨as1, as2, y, y', e, n1, r1, l1, c1, s1, r2, f⟩ := first_holder_step_frees as x z h b s hl r hb
+  refine ⟨as1, as2, y, y', e, n1, r1, l1, c1, s1, r2, f, ?_⟩
+  intro a hc hn
+  have hy' : Reach y' := Reach.step (reach_run r1 h) s1.toStep
+  exact waiter_proceeds_when_free y' hy' a hc s hn f
 
 /-! non-vacuity of the caller-program theorems: a writer and a `Truncate` (with a `MAXDBSIZE` pass over source 0)
 start together; the writer creates partition 0 — a reachable state with one unfinished caller holding a partition
@@ -488,7 +600,87 @@ theorem reach_sys1 : Reach sys1 := by
 example : sys1.st.c.holds = [⟨0, 0, false⟩] ∧ sys1.ctl 0 = .rel 0 [] .fin := ⟨rfl, rfl⟩
 example : ∃ b l c', (l, c') ∈ pnext b sys1.st (sys1.ctl b) ∧ Moves sys1.st (sys1.ctl b) l c' :=
   no_deadlock sys1 reach_sys1 0 (by simp [sys1, upd])
+/-- `Shutdown()` while the writer still holds partition 0: the state is reachable, the writer is not stuck (it releases),
+and the truncation that has not started yet ends at once -/
+example : Reach ⟨{ sys1.st with done := true }, sys1.ctl⟩ := shutdown_reachable sys1 reach_sys1
+example : ∃ l c', (l, c') ∈ pnext 1 ({ sys1.st with done := true } : St) (sys1.ctl 1) ∧
+    Moves ({ sys1.st with done := true } : St) (sys1.ctl 1) l c' :=
+  no_wait_after_shutdown ⟨{ sys1.st with done := true }, sys1.ctl⟩ (shutdown_reachable sys1 reach_sys1) rfl 1
+    (by simp [sys1, upd, ctl0])
 end CallersExample
+
+/-! non-vacuity of `bounded_wait`: a reachable state in which TRUNCATE (actor 0) holds partition 0 exclusively, right before
+`Delete`, while a writer (actor 2) needs it -/
+namespace WaitExample
+open Logrange.TIndexProg
+
+/-- actor 1 writes to tags 7 (creating partition 0), actor 0 truncates (no `MAXDBSIZE` pass), actor 2 wants to write too -/
+def ctlA : Nat → Ctl := fun a =>
+  if a = 0 then .vStart (.truncate []) [7] else if a = 1 then .acqTags 7 true else if a = 2 then .acqTags 7 true else .fin
+def nx (st : St) (l : Lbl) : St := (step st l).getD init
+def t1 : St := nx init (.getOrCreate 1 7 true)
+def t2 : St := nx t1 (.release 1 0)
+def t3 : St := nx t2 (.visitBegin 0 [7] true false)
+def t4 : St := nx t3 (.lockX 0 0)
+def c1 : Nat → Ctl := upd ctlA 1 (.rel 0 [] .fin)
+def c2 : Nat → Ctl := upd c1 1 .fin
+def c3 : Nat → Ctl := upd c2 0 (.vPick (.truncate []) [])
+def c4 : Nat → Ctl := upd c3 0 (.dj .delete 0 (.vRet (.truncate []) 0 []))
+def x4 : Sys := ⟨t4, c4⟩
+
+theorem reach_x4 : Reach x4 := by
+  have h0 : Reach ⟨init, ctlA⟩ := Reach.start ctlA (by
+    intro a; unfold ctlA; split
+    · simp [isEntry]
+    · split
+      · simp [isEntry]
+      · split <;> simp [isEntry])
+  have h1 : Reach ⟨t1, c1⟩ := Reach.step h0 ⟨1, .getOrCreate 1 7 true, .rel 0 [] .fin,
+    by simp [pnext, ctlA, init, findTags], rfl, rfl⟩
+  have h2 : Reach ⟨t2, c2⟩ := Reach.step h1 ⟨1, .release 1 0, .fin, by simp [pnext, c1, upd, relThen], rfl, rfl⟩
+  have h3 : Reach ⟨t3, c3⟩ := Reach.step h2 ⟨0, .visitBegin 0 [7] true false, .vPick (.truncate []) [],
+    by simp [pnext, c2, c1, upd, ctlA, skipOf, dnrOf, t2, t1, nx, step, init, findTags, relRaw, mayRelease], rfl, rfl⟩
+  exact Reach.step h3 ⟨0, .lockX 0 0, .dj .delete 0 (.vRet (.truncate []) 0 []), by
+    have hv : t3.vis 0 = some ⟨true, false, [0], [0], none, false⟩ := by decide
+    have hk : lockOk t3 0 = true := by decide
+    simp [pnext, c3, upd, hv, skipOf, cbOpts, djOpts, retOpts, hk], rfl, rfl⟩
+
+example : x4.st.c.locker 0 = some 0 := by decide
+
+/-- the truncating actor 0 holds partition 0 exclusively; the writer 2 needs it -/
+example : needs 2 x4.st (x4.ctl 2) 0 := by
+  show findTags t4.c.parts 7 t4.c.next = some 0
+  decide
+
+/-- the holder's only option: `Delete` -/
+def t5 : St := nx t4 (.delete 0 0)
+def x5 : Sys := ⟨t5, upd c4 0 (.dj .unlock 0 (.vRet (.truncate []) 0 []))⟩
+theorem step_x4_x5 : SysStepBy 0 x4 x5 :=
+  ⟨.delete 0 0, .dj .unlock 0 (.vRet (.truncate []) 0 []), by simp [pnext, x4, c4, upd, djOpts], rfl, rfl⟩
+
+/-- `bounded_wait` applies: a run segment `[2, 0]` (the waiting writer spins once, then the holder moves) — after the
+holder's first step partition 0 is gone and the writer can proceed (it will create the partition anew) -/
+example : ∃ y, SysStepBy 2 x4 y ∧ y.st = x4.st :=
+  ⟨⟨t4, upd c4 2 (.acqTags 7 true)⟩, ⟨.getOrCreate 2 7 true, .acqTags 7 true, by
+    have hf : findTags t4.c.parts 7 t4.c.next = some 0 := by decide
+    have hp : t4.c.parts 0 = some ⟨7, 1, true⟩ := by decide
+    have hd : t4.done = false := rfl
+    simp [pnext, x4, c4, c3, c2, c1, upd, ctlA, hf, hp, hd], by
+    show step t4 (.getOrCreate 2 7 true) = some t4
+    have hf : findTags t4.c.parts 7 t4.c.next = some 0 := by decide
+    have hp : t4.c.parts 0 = some ⟨7, 1, true⟩ := by decide
+    have hd : t4.done = false := rfl
+    simp [step, hf, hp, hd], rfl⟩, rfl⟩
+example : x5.st.c.parts 0 = none := by decide
+example := bounded_wait x4 x5 reach_x4 [0] 0 0 (by decide) (Run.cons step_x4_x5 (Run.nil x5)) (by simp)
+
+end WaitExample
+
+/-- what an interrupted waiting visit leaves behind (LTS level): `Partitions` (waiting, auto-release) has visited
+partition 0 and still owes its release when `Shutdown()` comes; its next per-item section ends the visit without the
+final locked section — the acquisition of partition 0 stays (an orphan), exactly the case `shutdown_orphans` books -/
+example : let st := reach (setup2 ++ [.visitBegin 1 [7, 8] false false, .visitTry 1 0, .visitCb 1 0 true, .shutdown, .visitTry 1 1])
+    st.c.holds = [⟨1, 0, true⟩] ∧ st.vis 1 = none ∧ st.done = true ∧ st.c.parts 0 = some ⟨7, 1, false⟩ := by decide
 
 /-! ### non-vacuity: concrete traces that meet the hypotheses above -/
 
